@@ -41,7 +41,7 @@ Definition case_out (c : case) : out :=
   | CDec bs _ => ORes (m_from_bytes bs)
   | CB58 bs _ => ORes (m_from_bytes bs)
   | CB58Enc p c _ => OVec (to_base58 b58_encode (p, c))
-  | CB58Dec s _ => ORes (from_base58 skip_item b58_decode s)
+  | CB58Dec s _ => ORes (from_base58 skip_item pallas_decode_base58 s)
   | CAddr bs _ => ORes (m_address_from_bytes bs)
   end.
 Definition case_ok (c : case) : bool :=
@@ -51,6 +51,6 @@ Definition case_ok (c : case) : bool :=
   | CDec bs res => res_eqb (m_from_bytes bs) res
   | CB58 bs res => res_eqb (m_from_bytes bs) res
   | CB58Enc p c s => C18.Model.bytes_eqb (to_base58 b58_encode (p, c)) s
-  | CB58Dec s res => res_eqb (from_base58 skip_item b58_decode s) res
+  | CB58Dec s res => res_eqb (from_base58 skip_item pallas_decode_base58 s) res
   | CAddr bs res => res_eqb (m_address_from_bytes bs) res
   end.
